@@ -68,10 +68,16 @@ func runConc(c *ctx) error {
 	}
 	menu := []string{"ban", "authorize", "report", "rotate", "report-banned"}
 	clock := uint32(1000)
-	if c.part("gaps") {
+	// --only impactrot: just the rotation inside a round of the impact collector (C03: impact rates
+	// reach the archived week unshifted), all sampling filters off
+	impactrot := c.only == "impactrot"
+	if c.part("gaps") || impactrot {
 		nsc := 0
 		for _, gap := range gaps {
 			for _, op := range menu {
+				if impactrot && !(gap == "impact:before-update" && op == "rotate") {
+					continue
+				}
 				if c.tier != "thorough" && (nsc+int(c.seed))%2 == 1 && gap != "impact:before-update" {
 					nsc++
 					continue
@@ -150,6 +156,15 @@ func runConc(c *ctx) error {
 				wg.Wait()
 				time.Sleep(60 * time.Millisecond) // let the background threads finish their sections
 				s.QueryStats("0", 0, false)
+				if impactrot {
+					// what the collector stored around the rotation is archived by the following rotations
+					s.QueryStats("2016", 2016, false)
+					e.rotateNow()
+					e.rotateNow()
+					for _, w := range []int64{0, 2016, 4032} {
+						s.QueryStats(fmt.Sprint(w), w, false)
+					}
+				}
 				s.CheckInv()
 			}
 		}
